@@ -1,5 +1,5 @@
 \* C05 quick: every behaviour the property allows (Permissive), <= 2 commands
-\* per connection, <= 2 connections, all client kinds, policy and authorizer changes
+\* per connection, <= 2 connections, all client kinds, policy and authorizer changes (one identity; MC_C05.cfg has two)
 SPECIFICATION Spec
 CONSTANTS
   MaxConns = 2
@@ -7,7 +7,7 @@ CONSTANTS
   PolicyTabs = {1, 2}
   AuthzTabs = {0, 1, 2}
   InitAuthz = {0, 1}
-  Users = {"alice", "bob"}
+  Users = {"alice"}
   Permissive = TRUE
   Bug = {}
 INVARIANTS TypeOK HandlerOnlyOnAdequateSession RawAuthSeparated RefusedClosesWithoutHandler
